@@ -60,6 +60,21 @@
 #define ADEPT_REAL_PACKET_SIZE 1
 #endif
 
+#ifdef RJHOGAN_ADEPT_2_VERIF
+namespace adept {
+  namespace verif {
+    // Verification hook: how many elements the vectorized assignment and reduction loops
+    // processed in the scalar prologue, as whole packets, and in the scalar epilogue
+    struct SimdLog {
+      long head, packets, tail;
+      SimdLog() : head(0), packets(0), tail(0) { }
+      void reset() { head = packets = tail = 0; }
+    };
+    inline SimdLog& simd_log() { static SimdLog log; return log; }
+  }
+}
+#endif
+
 namespace adept {
 
   namespace internal {
